@@ -110,7 +110,29 @@ def Z20(n=6, buf=2, mx=2):     # a process stops reading early (port z closes af
                 procs=[src("s1", items(n, "a")), cmd("sp", ["in"], ["o1", "o2"]), src("s2", items(1, "b")), cmd("j", ["x", "y", "z"])],
                 edges=[E("s1.out", "sp.in"), E("sp.o1", "j.x"), E("sp.o2", "j.y"), E("s2.out", "j.z")])
 
-ZOO = dict(Z20=Z20, Z17=Z17, Z18=Z18, Z19=Z19, Z5c=Z5c, Z1=Z1, Z2=Z2, Z3=Z3, Z4=Z4, Z5=Z5, Z6=Z6, Z7=Z7, Z8=Z8, Z9=Z9, Z10=Z10, Z13=Z13, Z14=Z14,
+def PC3(nx=2, ny=3, nz=2, buf=1, mx=2):   # three-port ParamCombinator feeding the three parameter ports of one process
+    return dict(name="PC3", max=mx, bufsize=buf,
+                procs=[psrc("xs", ["x%d" % i for i in range(1, nx + 1)]), psrc("ys", ["y%d" % i for i in range(1, ny + 1)]), psrc("zs", ["z%d" % i for i in range(1, nz + 1)]),
+                       dict(name="pc", kind="pcomb", params=["x", "y", "z"]), cmd("a", [], ["out"], ["x", "y", "z"])],
+                edges=[], pedges=[E("xs.out", "pc.x"), E("ys.out", "pc.y"), E("zs.out", "pc.z"), E("pc.x>", "a.x"), E("pc.y>", "a.y"), E("pc.z>", "a.z")])
+
+def PC2S(n=3, buf=1, mx=2):   # one out-port of a two-port ParamCombinator is consumed, the other one ends in the sink, as does the consumer's file output
+    return dict(name="PC2S", max=mx, bufsize=buf,
+                procs=[psrc("xs", ["x%d" % i for i in range(1, n + 1)]), psrc("ys", ["y1"]),      # |ys| = 1: the values on pc.x> are distinct
+                       dict(name="pc", kind="pcomb", params=["x", "y"]), cmd("a", [], ["out"], ["p"])],
+                edges=[], pedges=[E("xs.out", "pc.x"), E("ys.out", "pc.y"), E("pc.x>", "a.p")])
+
+def FC2(n=2, m=3, buf=1, mx=2):   # FileCombinator with independent upstreams, both out-ports into one two-port process
+    return dict(name="FC2", max=mx, bufsize=buf,
+                procs=[src("s1", items(n, "a")), src("s2", items(m, "b")), dict(name="fc", kind="fcomb", ins=["x", "y"]), cmd("j", ["x", "y"])],
+                edges=[E("s1.out", "fc.x"), E("s2.out", "fc.y"), E("fc.x>", "j.x"), E("fc.y>", "j.y")])
+
+def FCS(n=2, buf=2, mx=2):   # both ports of a FileCombinator fed by ONE upstream (documented limit: at most buffer-size items)
+    return dict(name="FCS", max=mx, bufsize=buf,
+                procs=[src("s", items(n)), dict(name="fc", kind="fcomb", ins=["x", "y"]), cmd("j", ["x", "y"])],
+                edges=[E("s.out", "fc.x"), E("s.out", "fc.y"), E("fc.x>", "j.x"), E("fc.y>", "j.y")])
+
+ZOO = dict(Z20=Z20, PC3=PC3, PC2S=PC2S, FC2=FC2, FCS=FCS, Z17=Z17, Z18=Z18, Z19=Z19, Z5c=Z5c, Z1=Z1, Z2=Z2, Z3=Z3, Z4=Z4, Z5=Z5, Z6=Z6, Z7=Z7, Z8=Z8, Z9=Z9, Z10=Z10, Z13=Z13, Z14=Z14,
            Z15=Z15, Z16=Z16, Z5b=Z5b)
 
 # ----------------------------------------------------------------------------
